@@ -384,6 +384,107 @@ fn prop_stall(run: &Run, c: &StallCase, rec: &mut CaseRec) -> Result<(), Violati
   l2_result(run, "stalled_subscriber", r)
 }
 
+
+// --- a subscriber that falls behind ------------------------------------------------------------------
+
+/// A SUB with a tiny receive queue that is idle while the publisher bursts matching and
+/// non-matching messages. The publisher may drop (C12 allows that), but what the subscriber gets
+/// afterwards is in publication order, without duplicates, and only matching messages.
+#[derive(Clone, Debug, Serialize, Deserialize)]
+pub struct SlowCase {
+  pub transport: Transport,
+  pub rcvhwm: u8,
+  pub burst: u16,
+  pub idle_ms: u16,
+  pub frames: u8,
+}
+
+async fn slow_body(c: &SlowCase) -> L2 {
+  let ctx = match rzmq::Context::new() {
+    Ok(x) => x,
+    Err(e) => return L2::Inconclusive(e.to_string()),
+  };
+  let (publisher, ep) = match stack::bound(&ctx, "PUB", c.transport, &[stack::i32opt(opt::SNDHWM, 2000), stack::i32opt(opt::SNDTIMEO, 20)]).await {
+    Ok(x) => x,
+    Err(e) => return L2::Inconclusive(e),
+  };
+  let sub = match ctx.socket(stack::stype("SUB")) {
+    Ok(s) => s,
+    Err(e) => return L2::Inconclusive(e.to_string()),
+  };
+  if let Err(e) = stack::set_opts(&sub, &[stack::i32opt(opt::RCVTIMEO, 1200), stack::i32opt(opt::RCVHWM, c.rcvhwm as i32)]).await {
+    return L2::Inconclusive(e);
+  }
+  let _ = sub.set_option_raw(opt::SUBSCRIBE, b"k").await;
+  if let Err(e) = sub.connect(&ep).await {
+    return L2::Inconclusive(e.to_string());
+  }
+  // wait until the subscription is effective
+  let mut through = false;
+  for _ in 0..250 {
+    let _ = publisher.send(Msg::from_static(b"kprobe")).await;
+    if let Ok(Ok(_)) = tokio::time::timeout(Duration::from_millis(20), sub.recv()).await {
+      through = true;
+      break;
+    }
+  }
+  if !through {
+    return L2::Inconclusive("subscription never became effective".into());
+  }
+  while let Ok(Ok(_)) = tokio::time::timeout(Duration::from_millis(150), sub.recv()).await {}
+  // burst while the subscriber is idle
+  for q in 0..c.burst as u32 {
+    let mut m: Vec<Msg> = vec![Msg::from_vec(format!("k{:06}", q).into_bytes())];
+    for f in 1..c.frames {
+      m.push(Msg::from_vec(vec![f; 10]));
+    }
+    let last = m.len() - 1;
+    for (i, x) in m.iter_mut().enumerate() {
+      if i < last {
+        x.set_flags(rzmq::MsgFlags::MORE);
+      }
+    }
+    let _ = publisher.send_multipart(m).await;
+    let _ = publisher.send(Msg::from_vec(format!("x{:06}", q).into_bytes())).await;
+  }
+  tokio::time::sleep(Duration::from_millis(c.idle_ms as u64)).await;
+  let mut seen: Vec<u32> = Vec::new();
+  let mut verdict = L2::Ok;
+  let v = |check: &str, d: String| L2::Violation(Violation::new(check, d).with("layer", "stack").with("slow_subscriber", true));
+  loop {
+    match sub.recv_multipart().await {
+      Ok(fr) => {
+        let first = fr.iter().next().map(|m| m.data().unwrap_or(&[]).to_vec()).unwrap_or_default();
+        if first.first() != Some(&b'k') {
+          verdict = v("delivered_without_matching_subscription", format!("the subscriber to \"k\" received a message starting with {:?}", String::from_utf8_lossy(&first[..first.len().min(8)])));
+          break;
+        }
+        if fr.len() != c.frames as usize {
+          verdict = v("truncated_message_delivered", format!("a {}-frame message arrived with {} frames", c.frames, fr.len()));
+          break;
+        }
+        if let Ok(q) = String::from_utf8_lossy(&first[1..]).parse::<u32>() {
+          if let Some(l) = seen.last() {
+            if q <= *l {
+              verdict = v("publication_order_broken", format!("message {} was delivered after {} (RCVHWM {}, burst of {} while the subscriber was idle); delivered so far {:?}", q, l, c.rcvhwm, c.burst, &seen[seen.len().saturating_sub(8)..]));
+              break;
+            }
+          }
+          seen.push(q);
+        }
+      }
+      Err(_) => break,
+    }
+  }
+  let _ = sub.close().await;
+  let _ = publisher.close().await;
+  stack::term(&ctx).await;
+  if seen.is_empty() && matches!(verdict, L2::Ok) {
+    return L2::Inconclusive("nothing was delivered".into());
+  }
+  verdict
+}
+
 pub fn run(run: &Run) {
   let (n, n_stall) = match run.tier {
     Tier::Quick => (40, 4),
@@ -393,6 +494,14 @@ pub fn run(run: &Run) {
   let stall = (prop::sample::select(vec![Transport::Tcp, Transport::Ipc]), prop::sample::select(vec![64u16, 128, 256]), 40u16..120, any::<bool>())
     .prop_map(|(transport, msg_kib, count, raw_reset)| StallCase { transport, msg_kib, count, raw_reset });
   run.prop("stalled_subscriber", n_stall, 2, 2, stall, |c, rec| prop_stall(run, c, rec));
+  let slow = (prop::sample::select(vec![Transport::Tcp, Transport::Ipc, Transport::Inproc]), prop::sample::select(vec![1u8, 2, 4, 16]), 50u16..400, prop::sample::select(vec![50u16, 300]), 1u8..4)
+    .prop_map(|(transport, rcvhwm, burst, idle_ms, frames)| SlowCase { transport, rcvhwm, burst, idle_ms, frames });
+  run.prop("slow_subscriber_order", n_stall * 3, 4, 4, slow, |c, rec: &mut crate::engine::CaseRec| {
+    rec.nontrivial = c.burst as u32 > c.rcvhwm as u32 * 3;
+    rec.label(c.transport.name());
+    let r = stack::run_l2(stack::Rt::Multi(2), Duration::from_secs(60), slow_body(c));
+    l2_result(run, "slow_subscriber_order", r)
+  });
   if run.undecided("stack") * 10 > n as u64 * 2 {
     run.inconclusive(format!("{} of {} stack cases could not be decided", run.undecided("stack"), n));
   }
